@@ -57,6 +57,43 @@ fn selftest_case(c: &Spelled, rec: &mut Rec) -> Verdict {
     }
 }
 
+/// Grids carry a format version (a public field; the Hayson decoder fills it from `meta.ver`). About a third of
+/// the grids of a value get the older version "2.0" - decided by a hash of the grid itself, so the case stays a pure
+/// function of the generated value. The Hayson mapping reserves `meta.ver` for it, which the reference reader strips.
+fn vary_grid_versions(v: &mut Value) -> u32 {
+    let mut n = 0;
+    match v {
+        Value::List(l) => {
+            for x in l.iter_mut() {
+                n += vary_grid_versions(x);
+            }
+        }
+        Value::Dict(d) => {
+            for (_, x) in d.iter_mut() {
+                n += vary_grid_versions(x);
+            }
+        }
+        Value::Grid(g) => {
+            if key_of(&format!("{:?}{:?}", g.columns, g.rows.len())) % 3 == 0 {
+                g.ver = "2.0".to_string();
+                n += 1;
+            }
+            for r in g.rows.iter_mut() {
+                for (_, x) in r.iter_mut() {
+                    n += vary_grid_versions(x);
+                }
+            }
+            if let Some(m) = g.meta.as_mut() {
+                for (_, x) in m.iter_mut() {
+                    n += vary_grid_versions(x);
+                }
+            }
+        }
+        _ => {}
+    }
+    n
+}
+
 /// Direction A: libhaystack's JSON is the Hayson representation of v.
 fn check_a(v: &RVal, rec: &mut Rec) -> Verdict {
     let v = &strip_meta_ver(v, rec);
@@ -64,7 +101,10 @@ fn check_a(v: &RVal, rec: &mut Rec) -> Verdict {
         return Verdict::Pass;
     }
     classify(v, rec);
-    let hv = build(v);
+    let mut hv = build(v);
+    if vary_grid_versions(&mut hv) > 0 {
+        rec.class("A:grid-with-format-version-2.0");
+    }
     let text = match guarded(|| serde_json::to_string(&hv)) {
         Ok(Ok(t)) => t,
         Ok(Err(e)) => return Verdict::fail(format!("C05:A:encode-error:{}", shape(v)), e.to_string()),
